@@ -62,11 +62,10 @@ pub(super) fn execute_distinct<'a, S: GraphSnapshot + 'a>(
                 .map(|(_, v)| format!("{:?}", v))
                 .collect::<Vec<_>>()
                 .join(",");
-            if seen.insert(key) {
-                return true;
-            }
+            return seen.insert(key);
         }
-        false
+        // Errors pass through (see `execute_union`): never drop them while deduplicating.
+        true
     })))
 }
 
@@ -149,11 +148,12 @@ pub(super) fn execute_union<'a, S: GraphSnapshot + 'a>(
                     .map(|(_, v)| format!("{:?}", v))
                     .collect::<Vec<_>>()
                     .join(",");
-                if seen.insert(key) {
-                    return true;
-                }
+                return seen.insert(key);
             }
-            false
+            // An error (a runtime error, or a limit / timeout raised beneath this operator)
+            // must reach the caller: dropping it would return a silently truncated result,
+            // and an expired deadline would be polled forever.
+            true
         })))
     }
 }
